@@ -3932,3 +3932,9 @@ def _spec_count(I, mask):
     """number of True entries of a boolean array (the length of a[mask])"""
     v = _val(mask)
     return mask_maps(I, v)[2]
+
+
+@lib("numpy.lib.recfunctions.repack_fields")
+def _repack_fields(I, a, **kw):
+    """memory re-packing of a structured array: values and fields kept"""
+    return a
